@@ -296,8 +296,17 @@ StepAwB(cfg, o, ln) ==
   ELSE LET x == OpenAct(o, ln.act) IN
        AddW([o EXCEPT !.open = (@ \ {x}) \cup {[x EXCEPT !.aw = ln.e]}], LateW(o, ln.act, ln.t, "await"))
 
-\* the first event of the awaited tree that is not done, for diagnostics / classification
-NotDone(o, c) == {d \in Sub(o, c) : ~Done(o, d)}
+\* the events of the awaited tree that are not done, and why (diagnostics / classification of recorded findings)
+NotDoneAll(o, c) == {d \in Sub(o, c) : ~Done(o, d)}
+\* only the causes: an event that is not done merely because a descendant is not done is not reported separately
+NotDone(o, c) == LET nd == NotDoneAll(o, c) IN {d \in nd : Desc(o, d) \cap nd = {}}
+ProcFinished(o, b, d) == InSeq(d, o.proc[b]) \/ \E x \in o.procX : x[1] = b /\ x[2] = d
+WhyNotDone(o, d) ==
+  IF d <= Len(o.fc) /\ o.fc[d] # <<>> THEN "regressed"                                  \* was observed complete before
+  ELSE IF \E b \in DOMAIN o.q : InSeq(d, o.q[b]) THEN "queued"                          \* still waiting in a queue
+  ELSE IF ~\E b \in DOMAIN o.acc : InSeq(d, o.acc[b]) THEN "never_accepted"
+  ELSE IF \E b \in DOMAIN o.acc : InSeq(d, o.acc[b]) /\ ~ProcFinished(o, b, d) THEN "held" \* taken / being processed by someone else
+  ELSE "processed"                                                                      \* processed everywhere, completion lost
 StepAwE(cfg, o, ln) ==
   IF ~IsOpen(o, ln.act) THEN o
   ELSE LET x == OpenAct(o, ln.act)
@@ -305,10 +314,7 @@ StepAwE(cfg, o, ln) ==
            nd == NotDone(o, ln.e)
            w == IF ln.canc THEN {}
                 ELSE (IF ~ln.same THEN {W("C04.identity", ln.e, x.b, x.h, x.act, "")} ELSE {})
-                  \cup {W("C04.incomplete", d, x.b, x.h, x.act,
-                          IF d <= Len(o.fc) /\ o.fc[d] # <<>> THEN "regressed" ELSE
-                          IF \E b \in DOMAIN o.q : InSeq(d, o.q[b]) THEN "queued" ELSE
-                          IF ~\E b \in DOMAIN o.acc : InSeq(d, o.acc[b]) THEN "never_accepted" ELSE "held") : d \in nd}
+                  \cup {W("C04.incomplete", d, x.b, x.h, x.act, WhyNotDone(o, d)) : d \in nd}
                   \cup LateW(o, ln.act, ln.t, "await_return")
        IN AddW(o1, w)
 
@@ -320,7 +326,7 @@ StepXAwE(cfg, o, ln) ==
   LET o1 == Bump([o EXCEPT !.xw = {x \in @ : ~(x.k = "a" /\ x.d = ln.d)}], "xawE")
       w == (IF ~ln.same THEN {W("C03.identity", ln.e, "", "", 0, "")} ELSE {})
         \cup (IF ln.exc # "" THEN {W("C03.raised", ln.e, "", "", 0, ln.exc)} ELSE {})
-        \cup {W("C03.incomplete", d, "", "", ln.e, IF d <= Len(o.fc) /\ o.fc[d] # <<>> THEN "regressed" ELSE "") : d \in NotDone(o, ln.e)}
+        \cup {W("C03.incomplete", d, "", "", ln.e, WhyNotDone(o, d)) : d \in NotDone(o, ln.e)}
   IN AddW(o1, w)
 
 \* events accepted on b whose processing there has not finished: queued, or having a handler of b that is not terminal,
@@ -423,8 +429,10 @@ StepEnd(cfg, o, ln) ==
       \* ---- C07 termination
       w7t == IF aborted THEN {W("Q.no_quiescence", 0, "", "", 0, ln.abort)} ELSE {}
       \* ---- liveness: blocked waiters
+      TouchesStopped(e) == \E d \in Sub(o, e) : \E b \in o.stopped : InSeq(d, o.acc[b])
       wl == {W(CASE x.k = "a" -> "C03.hang" [] x.k = "idle" -> "C15.hang" [] x.k = "stop" -> "C16.hang" [] OTHER -> "C18.hang",
-               x.e, x.b, "", x.d, "") : x \in {y \in o.xw : \E z \in blockedOps : z[1] = y.d}}
+               x.e, x.b, "", x.d, "") : x \in {y \in o.xw : (\E z \in blockedOps : z[1] = y.d)
+                                                        /\ ~(y.k = "a" /\ TouchesStopped(y.e)) /\ ~(y.k = "idle" /\ y.b \in o.stopped)}}
             \cup {W("C04.hang", x.aw, x.b, x.h, x.act, "") : x \in {y \in o.open : y.aw # 0}}
             \cup {W("C10.never_cancelled", x.e, x.b, x.h, x.act, "") : x \in {y \in o.open : y.dl >= 0 /\ y.dl < ln.t}}
       \* ---- C01: every accepted event was delivered to every matching scenario handler of the bus
